@@ -49,6 +49,7 @@ def main(inp, outp):
 
     traces = []
     laws = {"checked": 0, "failed": 0, "worst_cm": 0.0, "examples": []}
+    older = None      # (native propagator, its TLE lines) initialised for an earlier catalogue entry and still alive
     for case in job["cases"]:
         text = case["l1"] + "\n" + case["l2"]
         items = []
@@ -108,6 +109,13 @@ def main(inp, outp):
                     b = np.asarray(nat.propagate(timedelta(seconds=off_s)), float)
                     rp, rv = ref_model(real_twoline2rv(case["l1"], case["l2"], wrapper_mod.wgs72), off_s / 60.0)
                     d_cm = float(np.linalg.norm(b[:3] - np.asarray(rp, float) * 1000.0)) * 100
+                    # several propagators alive at once: the one initialised EARLIER must still give its own orbit
+                    if older is not None and older[1] != (case["l1"], case["l2"]):
+                        ob = np.asarray(older[0].propagate(timedelta(seconds=off_s)), float)
+                        orp, _ = ref_model(real_twoline2rv(older[1][0], older[1][1], wrapper_mod.wgs72), off_s / 60.0)
+                        d_cm = max(d_cm, float(np.linalg.norm(ob[:3] - np.asarray(orp, float) * 1000.0)) * 100)
+                    if k == len(case["queries"]) - 1:
+                        older = (nat, (case["l1"], case["l2"]))
                     laws["checked"] += 1
                     laws["worst_cm"] = max(laws["worst_cm"], d_cm)
                     if d_cm > 1.0:
